@@ -640,6 +640,45 @@ def directed_cases(ctx):
                 ctx.violation('two calls whose captured arguments differ (%s) share a key: replay answers one with the value recorded for the other' % (
                     'only in private attributes' if hasattr(a, '__dict__') or ni in (12, 13) else 'only slightly'),
                     dict(w, a=repr(a)[:80], b=repr(b)[:80], recorded=repr(live)[:120], replayed=repr(state['got'])[:120]))
+    # ---- ordinary parameters that happen to be NAMED like a receiver (def load(this, key, cls=None) / **kwargs holding 'self'), passed by keyword
+    for kwname in ('cls', 'self', 'klass', 'owner'):
+        cas = InMemoryTapeCassette()
+        rec = TapeRecorder(cas)
+        rec.enable_recording()
+        state = {}
+        backend = {'calls': 0}
+
+        class Documents(object):
+            @rec.intercept_input('documents.load')
+            def load(this, key, **options):
+                backend['calls'] += 1
+                return ['document', key, sorted(options.items())]
+
+            @rec.operation()
+            def run(this):
+                out = []
+                for kind in ('Invoice', 'Receipt'):
+                    try:
+                        out.append(this.load('doc-1', **{kwname: kind}))
+                    except RecordingKeyError:
+                        out.append('missing')
+                state['got'] = out
+        Documents().run()
+        live = state['got']
+        w = {'directed': 'parameter_named_like_a_receiver', 'name': kwname}
+        ctx.case(w)
+        ctx.count('receiver_like_parameter_names')
+        try:
+            rid = cas.get_last_recording_id()
+            cas.get_recording(rid)
+        except Exception:
+            ctx.count('directed_cases_not_saved')
+            continue
+        backend['calls'] = 0
+        rec.play(rid, lambda recording: Documents().run())
+        ctx.count('replayed_calls_judged', 2)
+        if backend['calls'] or state['got'] != live:
+            ctx.violation('two calls that differ only in a keyword argument named %r share a key' % kwname, dict(w, recorded=repr(live)[:150], replayed=repr(state['got'])[:150]))
     # ---- receivers that are not called self
     for variant in range(4):
         cas = InMemoryTapeCassette()
